@@ -38,10 +38,12 @@ type vxCConn struct {
 	onWrite     chan []byte    // alternatively: a copy of the bytes of every Write, for a peer goroutine
 	nread       int64          // bytes handed to the library (atomic)
 	readMax     int            // > 0: a Read returns at most this many bytes (models finer segmentation)
+	stallWrite int    // index of the Write call that blocks until Close (-1: none)
+	onStall    func() // called when that Write starts to block
 }
 
 func vxNewCConn() *vxCConn {
-	return &vxCConn{in: make(chan []byte, 64), dead: make(chan bool), failWriteAt: -1}
+	return &vxCConn{in: make(chan []byte, 64), dead: make(chan bool), failWriteAt: -1, stallWrite: -1}
 }
 
 type vxConnErr struct{ s string }
@@ -76,6 +78,7 @@ func (c *vxCConn) Read(p []byte) (int, error) {
 		p = p[:c.readMax]
 	}
 	n := copy(p, c.cur)
+	vxLibWrite(p[:n])
 	c.cur = c.cur[n:]
 	atomic.AddInt64(&c.nread, int64(n))
 	return n, nil
@@ -89,9 +92,19 @@ func (c *vxCConn) Write(p []byte) (int, error) {
 	if c.isClosed() {
 		return 0, vxErrConnClosed
 	}
+	if c.stallWrite >= 0 && c.nwrites == c.stallWrite {
+		// the peer has stopped reading: this Write blocks until the connection is closed locally
+		c.stallWrite = -1
+		if c.onStall != nil {
+			c.onStall()
+		}
+		<-c.dead
+		return 0, vxErrConnClosed
+	}
 	if c.failWriteAt >= 0 && len(c.wire)+len(p) > c.failWriteAt {
 		return 0, io.ErrClosedPipe
 	}
+	vxLibRead(p)
 	c.wire = append(c.wire, p...)
 	c.nwrites++
 	if c.hook != nil || c.onWrite != nil {
